@@ -364,6 +364,8 @@ fn ladder_kmax(family: &str, t: Tier) -> usize {
     match (t, family) {
         // exponential in the nesting depth (measured: depth 24 = 85 s): the quick tier stays below the blow-up
         (Tier::Quick, "nested_generics") => 4,
+        // type-checking time grows ~n^4 with struct nesting depth and depth 64 panics (known class): thorough only
+        (Tier::Quick, "nested_structs") => 4,
         (Tier::Quick, _) => {
             if deep {
                 6
@@ -377,7 +379,9 @@ fn ladder_kmax(family: &str, t: Tier) -> usize {
 }
 
 fn run_ladder_family(family: &'static str, idx: usize, scratch: &std::path::Path, t: Tier, slowdown: f64) -> LadderResult {
-    let slow_ms: u64 = (t.pick(6_000.0, 20_000.0) * slowdown) as u64;
+    // the ladder's time-based rules use a bounded load factor so that the phase ends in bounded time
+    let slowdown = slowdown.min(8.0);
+    let slow_ms: u64 = (t.pick(15_000.0, 30_000.0) * slowdown) as u64;
     let timeout = Duration::from_secs((120.0 * slowdown) as u64);
     let mut drv = SeqDriver::new(scratch, idx, 24 << 30);
     let mut res = LadderResult { rungs: vec![], failures: vec![], caps: vec![], builds: 0 };
@@ -656,6 +660,19 @@ fn run(a: &vhcore::Args) -> i32 {
         }
     }
     eprintln!("[c17] phase C done: {} release builds, {:.0}s", rreqs.len(), t_start.elapsed().as_secs_f64());
+    // journal: the failing builds of the mutation campaign survive an interrupted ladder / confirmation phase
+    {
+        let j: Vec<serde_json::Value> = failures
+            .iter()
+            .map(|f| {
+                let c = &cases[f.case];
+                json!({"key": format!("{}|{}", f.shape.key(), c.family), "base": c.base, "mutation": c.desc, "release": f.release,
+                       "detail": vhcore::truncate(&f.detail, 300), "src": if c.src.len() < 20_000 { c.src.clone() } else { String::new() }})
+            })
+            .collect();
+        let p = vhcore::verif_root().join("work").join("C17").join(format!("failures-unconfirmed.{}.json", t.as_str()));
+        let _ = std::fs::write(p, serde_json::to_string_pretty(&j).unwrap());
+    }
 
     // ---- worker deaths / timeouts: re-run each such request alone to attribute -------------------
     let mut transient = 0usize;
